@@ -21,6 +21,14 @@ ROWS = {
    technique='property-based testing: generated inputs with single-parameter mutations, stateful op histories + bounded exhaustive sequences, Hypothesis-drawn thread schedules under a settrace baton scheduler; independent RSA verification with cryptography',
    text='Signed redirect URLs are verified independently over the transmitted octets under every candidate certificate; mutated queries must not verify; op histories and line-level thread interleavings of sign/verify by entities with different keys must keep every signature under its requester\'s key.',
    note='Line-granular interleavings of 2-3 threads with bounded switch points; cryptography package as verification oracle.'),
+ 'C12': dict(level='exploration', design='3/C12',
+   technique='property-based testing: exhaustive enumeration over all schema classes (deterministic full/bare instances) + Hypothesis instance trees; round-trip, byte-stability, independent ElementTree intent oracle, hand-transcribed XSD sequence table, foreign-content metamorphic check',
+   text='Every SamlBase class of the schema modules is serialised and parsed back; harness-side projection equality, second serialisation byte-identical, plain ElementTree must see each generated attribute/child under its declared name in sequence order (core classes also against a hand transcription of the published XSD order), injected foreign children/attributes must survive.',
+   note='Ground truth for most classes is the generated tables themselves (XSDs are not in the repository); core SAML/DSig/XML-Enc/metadata classes additionally against harness/models/schema_order.py.'),
+ 'C13': dict(level='exploration', design='3/C13',
+   technique='property-based testing: exhaustive single-fault enumeration over all (class, constraint, placement) triples + Hypothesis trees with 0/1 fault, judged by a reference validator written from the statement',
+   text='For every class a valid instance must pass validation and every single declared-constraint fault (required attribute, occurrence bound, typed value/enumeration), planted at the root or under parent/grandparent classes, must be rejected; both directions checked.',
+   note='Reference validator decides only clearly valid/invalid lexical forms; maxlen facets and grey-zone spellings are not generated; class-specific verify() rules are honoured by the valid-instance generator.'),
 }
 NOT_YET = {}
 def main():
